@@ -2,12 +2,14 @@
 from . import common as C
 from . import fqgen
 from . import sockcheck as S
+from . import wire as W
+from . import scen
 
 PID = "C06"
 RULE = ("the real FairQueue with a counting receiver waker: all label schedules of depth 5/6 for 2 streams (events inside the poll window "
         "included) and seeded random schedules for 1-4 streams, each ended by a drain in which the environment fires every owed stream waker "
         "and an executor re-polls the receiver ONLY when its waker was invoked: any item left in a registered stream is a lost wake-up; "
-        "saturated schedules (n streams x m queued items) for the rotation bound n-1; distinct = distinct schedule; non-trivial = the receiver parks at least once")
+        "socket level (six fair-queue socket types): a second connection under a still-registered identity whose event was already consumed, then a waker-respecting recv while its message arrives; saturated schedules (n streams x m queued items) for the rotation bound n-1; distinct = distinct schedule; non-trivial = the receiver parks at least once")
 
 
 def cases(tier, rng):
@@ -42,12 +44,34 @@ def cases(tier, rng):
                 labs += ["P"] * (total + 1)
                 out.append("g%d fq / %s / D" % (k, " / ".join(labs)))
                 k += 1
+    # socket level: a peer that re-connects under an identity whose previous connection is still registered
+    # (its ready event already consumed) must be polled and its arrival must wake a parked recv
+    for t in ("PULL", "SUB", "DEALER", "ROUTER", "REP", "XPUB"):
+        one, two = ([b"", b"one"], [b"", b"two"]) if t == "REP" else ([b"\x01one"], [b"\x01two"]) if t == "XPUB" else ([b"one"], [b"two"])
+        for idl in (1, 16, 255):
+            ident = W.tok(b"J" * idl)
+            for polls in (1, 2):
+                ops = ["attach a %s id=%s" % (scen.PEER[t], ident), "feed a " + W.tok(W.msg(one)), "recv", "recvp %d" % polls,
+                       "attach b %s id=%s" % (scen.PEER[t], ident), "recvw b " + W.tok(W.msg(two))]
+                out.append("s%d sock %s / %s" % (k, t, " / ".join(ops)))
+                k += 1
     return out
+
+
+def compare_filter(line):
+    return line.split()[1] == "fq"       # the socket model assumes distinct identities
 
 
 def judge(line, obs, orc):
     if S.bad_obs(obs):
         return "implementation " + str(obs)[:80]
+    if line.split()[1] == "sock":
+        last = obs.split()[-1]
+        if "lost-wakeup" in last:
+            return "lost wake-up: a peer re-connected under a still-registered identity, its message arrived, the parked recv was never woken"
+        if not last.startswith("r=ok:") or not last.endswith("74776f"):
+            return "the message of the re-connected peer was not delivered: " + last[:80]
+        return None
     labels = [x.strip() for x in line.split(" / ")[1:]]
     removed, inserted = set(), set()
     for lab in labels:
